@@ -137,6 +137,17 @@ package entities
 // the precondition full_width is what every caller must establish)
 // ---------------------------------------------------------------------------
 
+//@ // elemEmpty: the element holds its type's zero value (what templates carry)
+//@ pure elemEmpty(e InfoElementWithValue) bool =
+//@       (dt(e) == Unsigned8 ==> e.(*Unsigned8InfoElement).value == 0) && (dt(e) == Unsigned16 ==> e.(*Unsigned16InfoElement).value == 0)
+//@    && (dt(e) == Unsigned32 ==> e.(*Unsigned32InfoElement).value == 0) && (dt(e) == Unsigned64 ==> e.(*Unsigned64InfoElement).value == 0)
+//@    && (dt(e) == Signed8 ==> e.(*Signed8InfoElement).value == 0) && (dt(e) == Signed16 ==> e.(*Signed16InfoElement).value == 0)
+//@    && (dt(e) == Signed32 ==> e.(*Signed32InfoElement).value == 0) && (dt(e) == Signed64 ==> e.(*Signed64InfoElement).value == 0)
+//@    && (dt(e) == Float32 ==> e.(*Float32InfoElement).value == 0) && (dt(e) == Float64 ==> e.(*Float64InfoElement).value == 0)
+//@    && (dt(e) == Boolean ==> !e.(*BooleanInfoElement).value)
+//@    && (dt(e) == DateTimeSeconds ==> e.(*DateTimeSecondsInfoElement).value == 0) && (dt(e) == DateTimeMilliseconds ==> e.(*DateTimeMillisecondsInfoElement).value == 0)
+//@    && (dt(e) == MacAddress ==> isnil(macval(e))) && (dt(e) == OctetArray ==> isnil(oaval(e)))
+//@    && ((dt(e) == Ipv4Address || dt(e) == Ipv6Address) ==> isnil(ipval(e))) && (dt(e) == String ==> strval(e) == "")
 //@ pure supportedKind(d int) bool = (0 <= d && d <= 15) || d == Ipv4Address || d == Ipv6Address
 //@ pure isFixedKind(d int) bool = d != OctetArray && d != String
 //@
@@ -182,6 +193,7 @@ package entities
 //@   ensures  ip:   err == nil && !isnil(value) && (element.DataType == Ipv4Address || element.DataType == Ipv6Address) ==> sameElems(ipval(r), value) && fresh(ipval(r))
 //@   ensures  oa:   err == nil && !isnil(value) && element.DataType == OctetArray ==> sameElems(oaval(r), value) && (len(value) > 0 ==> fresh(oaval(r)))
 //@   ensures  str:  err == nil && !isnil(value) && element.DataType == String ==> len(strval(r)) == len(value) && forall k in [0, len(value)): sat(strval(r), k) == value[k]
+//@   ensures  zempty: err == nil && isnil(value) && wfElem(r) ==> elemEmpty(r)
 //@   ensures  znum: err == nil && isnil(value) ==>
 //@              (element.DataType == Unsigned8 ==> r.(*Unsigned8InfoElement).value == 0) && (element.DataType == Unsigned16 ==> r.(*Unsigned16InfoElement).value == 0)
 //@           && (element.DataType == Unsigned32 ==> r.(*Unsigned32InfoElement).value == 0) && (element.DataType == Unsigned64 ==> r.(*Unsigned64InfoElement).value == 0)
@@ -478,3 +490,6 @@ package entities
 //@   ensures  one: len(r.records) == 1 && addedView(r.records[0], ies, templateID, Data)
 //@   ensures  hdr: len(r.headerBuffer) == 4 && be16(r.headerBuffer, 0) == templateID
 //@   ensures  inv: setInv(r) && recOK(r.records[0]) && r.length == 4 + recLen(r.records[0])
+
+//@ func NewInfoElement(name, ieID, ieType, entID, len) (r)
+//@   ensures r: r != nil && fresh(r) && r.Name == name && r.ElementId == ieID && r.DataType == ieType && r.EnterpriseId == entID && r.Len == len
